@@ -115,4 +115,4 @@ def replay(ctx, rec):
             return srt([I.view(x) for x in d.create_splice_sites(numeric_sort=m["numeric"])]) != srt([I.canon_view(v) for v in e["splice"]])
         except Exception:  # noqa
             return True
-    return True
+    raise core.CannotReplay("the case could not be reconstructed from the model")
